@@ -1050,20 +1050,43 @@ fn main() {
             run_one(&mut rep, &root, &sc, false);
         }
     }
-    let n = args.budget(180, 2500);
-    for i in 0..n {
-        if i % 3 == 2 {
+    // time-aware: no new random scenario once the budget of wall time is used up (70 % of the check's limit:
+    // `C41_TIME_LIMIT_S` if given, else conservative constants), so that the run always finishes cleanly
+    let started = std::time::Instant::now();
+    let stop_after = std::env::var("C41_TIME_LIMIT_S")
+        .ok()
+        .and_then(|v| v.parse::<u64>().ok())
+        .map(|limit| limit * 7 / 10)
+        .unwrap_or(if args.thorough { 2300 } else { 400 });
+    let out_of_time = |started: &std::time::Instant| started.elapsed().as_secs() >= stop_after;
+    let n_filter = args.budget(24, 100);
+    let n = args.budget(180, 650);
+    let (mut ran_filter, mut ran_random) = (0u64, 0u64);
+    // the two kinds alternate so that a time-limited run still has both
+    let mut i = 0u64;
+    while (ran_random < n || ran_filter < n_filter) && !out_of_time(&started) {
+        if ran_filter < n_filter && (ran_random >= n || i % 7 == 6) {
+            let sc = gen_filter(&mut rng);
+            run_one(&mut rep, &root, &sc, false);
+            ran_filter += 1;
+        } else if ran_random % 3 == 2 {
             let sc = gen_simple(&mut rng);
-            run_one(&mut rep, &root, &sc, i % 12 == 2);
+            run_one(&mut rep, &root, &sc, ran_random % 12 == 2);
+            ran_random += 1;
         } else {
             let sc = gen_hostile(&mut rng);
             run_one(&mut rep, &root, &sc, false);
+            ran_random += 1;
         }
+        i += 1;
     }
-    for _ in 0..args.budget(24, 400) {
-        let sc = gen_filter(&mut rng);
-        run_one(&mut rep, &root, &sc, false);
+    if ran_random < n || ran_filter < n_filter {
+        rep.bucket("stopped-by-time-budget");
     }
+    rep.note(&format!(
+        "random scenarios run: {ran_random} of {n}, filter scenarios: {ran_filter} of {n_filter} ({} s of {stop_after} s); the corpus is always complete",
+        started.elapsed().as_secs()
+    ));
     let _ = std::env::set_current_dir(&start_dir);
     rep.finish();
 }
